@@ -51,6 +51,16 @@ func NewHMACAuth(secrets [][]byte) *HMACAuth {
 // String-to-sign:
 //
 //	ts + "\n" + method + "\n" + path + "\n" + hex(sha256(body))
+// AdoptNonces makes a continue the replay protection of prev, the
+// authenticator it replaces for the same route on a configuration reload, so
+// that a request honoured before the reload cannot be replayed after it.
+func (a *HMACAuth) AdoptNonces(prev *HMACAuth) {
+	if a == nil || prev == nil || prev.nonce == nil {
+		return
+	}
+	a.nonce = prev.nonce
+}
+
 func (a *HMACAuth) Verify(r *http.Request, requestPath string, body []byte) error {
 	if a == nil {
 		return nil
